@@ -405,6 +405,23 @@ func checkC08(r *Result) {
 		}
 		r.check(nRoots >= 2, "FLAG-ONLY", "aggregate builders that name the determining reporter", "-", fmt.Sprint(nRoots))
 	}
+	// a snapshot that was created is stored under all four of its indexes (by report, by snapshot, its signature
+	// slots, and the block's request list)
+	if cs := P.Func("(x/bridge/keeper.Keeper).CreateSnapshot"); cs != nil {
+		names := []string{"AttestSnapshotsByReportMap", "AttestSnapshotDataMap", "SnapshotToAttestationsMap", "AttestRequestsByHeightMap"}
+		var atoms []Atom
+		for _, c := range names {
+			atoms = append(atoms, Atom{Name: c, Event: P.CallEvent(descIs("coll:x/bridge/keeper.Keeper."+c+".Set"), T)})
+		}
+		requireAtSuccess(r, "SNAPSHOT-NEIGHBOURS", cs, "a created snapshot is stored by report, by snapshot, with its signature slots and in the block's request list", atoms, func(v map[string]bool) bool {
+			for _, c := range names {
+				if !v[c] {
+					return false
+				}
+			}
+			return true
+		})
+	}
 	r.minCount("WRITERS", 5)
 	r.minCount("FLAG-ONLY", 4)
 	r.minCount("RANGE-SHAPE", 10)
